@@ -14,11 +14,11 @@ Reading guide
 * classes: `mapClass_spec` (counterpart of the last row naming the class in both namespaces, else unchanged),
   `mapClass_unmapped`, `mapClass_mapped`, `mapClassAny_array`, `remapperB_class`;
 * members: `declares_spec` (what a class table contains), `member_resolution` (+ `fuel_independent`, `acyclic_fuel`):
-  first declaration in pre-order over the owner and the super types of the provider in declaration order, through
-  classes *that have a mapping* only. The property text asks for the nearest declaring super type along the provider's
-  graph: `member_resolution_nearest_partial` proves that on the domain `allMapped` (every class of the provider's
-  pre-order from the owner has a mapping), `member_resolution_unmapped_witness` shows that outside it a class without a
-  mapping hides the declarations of its super types. `member_resolution_own` (shadowing), `member_resolution_nowhere`;
+  first declaration in pre-order over the provider's graph from the owner (the owner, then its super types in
+  declaration order, recursively). `member_resolution_nearest` is the statement of the property text at full strength
+  (classes without a mapping are searched through and contribute nothing), `member_resolution_unmapped_regression` the
+  former counterexample (before `c873813` a class without a mapping hid the declarations of its super types),
+  `unmapped_owner`, `member_resolution_own` (shadowing), `member_resolution_nowhere`;
 * fallbacks: `fallback_spec`, `fallback_grammar`, `mref_array`, `ref_obj`;
 * round trips X→Y→X: `roundtrip_class`, `roundtrip_desc`, `roundtrip_member` (+ `_query`) under the decidable hypothesis
   `injOn pairs img c` ("every row whose target is the image of `c` has source `c`": for a mapped name that it is the only
@@ -245,79 +245,92 @@ theorem fuel_mono (sel : BClass → AList MemberKey MemberKey) (r : BTable) (sup
     (h : mapMemberFail sel r sup f o key = some res) : mapMemberFail sel r sup f' o key = some res :=
   mapMemberFail_mono sel r sup key hle h
 
-/-- `map_field_fail` / `map_method_fail` = the first class, in pre-order over the owner and then its super types in
-declaration order (recursively, only through classes that have a mapping), that declares the key. `order` is that
-pre-order, which exists as soon as the traversal from `o` terminates (`acyclic_fuel`). -/
+/-- `map_field_fail` / `map_method_fail` = the first class, in pre-order over the provider's graph from the owner (the
+owner, then its super types in declaration order, recursively), that declares the key. `order` is that pre-order, which
+exists as soon as the traversal from `o` terminates (`acyclic_fuel`). Classes without a mapping declare nothing
+(`declares_unmapped`) but are searched through. -/
 theorem member_resolution (sel : BClass → AList MemberKey MemberKey) (r : BTable) (sup : Supers) (key : MemberKey)
-    {f f' : Nat} {o : JStr} {order : List JStr} (hd : dfs r sup f o = some order) (hle : f ≤ f') :
+    {f f' : Nat} {o : JStr} {order : List JStr} (hd : dfs sup f o = some order) (hle : f ≤ f') :
     mapMemberFail sel r sup f' o key = some (order.findSome? (declares sel r key)) :=
   mapMemberFail_mono sel r sup key hle (mapMemberFail_dfs sel r sup key f o order hd)
 
-/-- the pre-order itself is fuel independent -/
-theorem dfs_fuel_mono (r : BTable) (sup : Supers) {f f' : Nat} (hle : f ≤ f') {o : JStr} {order : List JStr}
-    (h : dfs r sup f o = some order) : dfs r sup f' o = some order :=
-  dfs_mono r sup hle h
+/-- a class without a mapping declares nothing -/
+theorem declares_unmapped (sel : BClass → AList MemberKey MemberKey) (r : BTable) (key : MemberKey) (c : JStr)
+    (h : AList.lookup c r = none) : declares sel r key c = none := by
+  simp [declares, h]
 
-/-- what the pre-order is: nothing for an unmapped class; otherwise the class followed by the pre-orders of its
-super types -/
-theorem dfs_unfold (r : BTable) (sup : Supers) (f : Nat) (o : JStr) :
-    dfs r sup (f + 1) o =
-      match AList.lookup o r with
-      | none => some []
-      | some _ =>
-        match AList.lookup o sup with
-        | none => some [o]
-        | some ss =>
-          match concatM (fun s => dfs r sup f s) ss with
-          | none => none
-          | some l => some (o :: l) := by
+/-- **Nearest declaring super type (full strength since `c873813`).** The statement of the property text: the answer is
+the declaration of the first class along the pre-order of the provider's graph that has a mapping declaring the key — no
+hypothesis about which classes of the hierarchy have a mapping (formerly `member_resolution_nearest_partial`, which
+needed every class of the pre-order to have one). -/
+theorem member_resolution_nearest (sel : BClass → AList MemberKey MemberKey) (r : BTable) (sup : Supers)
+    (key : MemberKey) {f f' : Nat} {o : JStr} {order : List JStr} (hd : dfs sup f o = some order) (hle : f ≤ f') :
+    mapMemberFail sel r sup f' o key =
+      some ((order.filter fun c => (AList.lookup c r).isSome).findSome? (declares sel r key)) := by
+  rw [member_resolution sel r sup key hd hle]
+  congr 1
+  clear hd
+  induction order with
+  | nil => rfl
+  | cons c rest ih =>
+    simp only [List.findSome?_cons, List.filter_cons]
+    cases hl : AList.lookup c r with
+    | none => simpa [declares_unmapped sel r key c hl] using ih
+    | some cls =>
+      simp only [Option.isSome_some, if_true, List.findSome?_cons]
+      cases declares sel r key c with
+      | some v => rfl
+      | none => exact ih
+
+/-- the pre-order itself is fuel independent -/
+theorem dfs_fuel_mono (sup : Supers) {f f' : Nat} (hle : f ≤ f') {o : JStr} {order : List JStr}
+    (h : dfs sup f o = some order) : dfs sup f' o = some order :=
+  dfs_mono sup hle h
+
+/-- what the pre-order is: the class followed by the pre-orders of its super types -/
+theorem dfs_unfold (sup : Supers) (f : Nat) (o : JStr) :
+    dfs sup (f + 1) o =
+      match AList.lookup o sup with
+      | none => some [o]
+      | some ss =>
+        match concatM (fun s => dfs sup f s) ss with
+        | none => none
+        | some l => some (o :: l) := by
   rw [dfs]
   rfl
 
-/-- acyclic provider (a rank decreasing along the super-type edges of mapped classes): the fuel the driver uses,
-`number of mapped classes + 1`, always suffices -/
-theorem acyclic_fuel (r : BTable) (sup : Supers) (rank : JStr → Nat) (hr : Ranked r sup rank) (o : JStr) :
-    ∃ order, dfs r sup (defaultFuel r) o = some order := by
-  apply dfs_path r sup rank hr (defaultFuel r) o [] List.nodup_nil (by simp) (by simp)
+/-- acyclic provider (a rank decreasing along its super-type edges): the fuel the driver uses, `number of provider
+rows + 1`, always suffices -/
+theorem acyclic_fuel (sup : Supers) (rank : JStr → Nat) (hr : Ranked sup rank) (o : JStr) :
+    ∃ order, dfs sup (defaultFuel sup) o = some order := by
+  apply dfs_path sup rank hr (defaultFuel sup) o [] List.nodup_nil (by simp) (by simp)
   simp [defaultFuel]
 
 theorem member_resolution_acyclic (sel : BClass → AList MemberKey MemberKey) (r : BTable) (sup : Supers)
-    (rank : JStr → Nat) (hr : Ranked r sup rank) (o : JStr) (key : MemberKey) :
-    ∃ order, dfs r sup (defaultFuel r) o = some order ∧
-      ∀ f, defaultFuel r ≤ f → mapMemberFail sel r sup f o key = some (order.findSome? (declares sel r key)) := by
-  obtain ⟨order, h⟩ := acyclic_fuel r sup rank hr o
+    (rank : JStr → Nat) (hr : Ranked sup rank) (o : JStr) (key : MemberKey) :
+    ∃ order, dfs sup (defaultFuel sup) o = some order ∧
+      ∀ f, defaultFuel sup ≤ f → mapMemberFail sel r sup f o key = some (order.findSome? (declares sel r key)) := by
+  obtain ⟨order, h⟩ := acyclic_fuel sup rank hr o
   exact ⟨order, h, fun f hf => member_resolution sel r sup key h hf⟩
 
-/-- the search never leaves an unmapped owner -/
+/-- an owner without a mapping passes the question on to its super types (before `c873813`: answered "no mapping") -/
 theorem unmapped_owner (sel : BClass → AList MemberKey MemberKey) (r : BTable) (sup : Supers) (key : MemberKey)
-    (f : Nat) (o : JStr) (h : AList.lookup o r = none) : mapMemberFail sel r sup (f + 1) o key = some none := by
-  rw [mapMemberFail, h]
-
-/-! ### nearest declaring super type (the order of the property text) -/
-
-/-- **Partial.** `dfsAll` is the pre-order of the provider's graph from the owner (the owner, then its super types in
-declaration order, recursively) — the order in which the property text looks for "the nearest declaring super type".
-On the domain `allMapped`: *every class of that pre-order has a mapping* (both names in some row), the answer of
-`map_field_fail` / `map_method_fail` is the first declaration along it. Outside the domain the code stops at the first
-class without a mapping: `member_resolution_unmapped_witness`. -/
-theorem member_resolution_nearest_partial (sel : BClass → AList MemberKey MemberKey) (r : BTable) (sup : Supers)
-    (key : MemberKey) {f f' : Nat} {o : JStr} {order : List JStr}
-    (hd : dfsAll sup f o = some order) (hm : allMapped r order = true) (hle : f ≤ f') :
-    mapMemberFail sel r sup f' o key = some (order.findSome? (declares sel r key)) :=
-  member_resolution sel r sup key (dfs_eq_dfsAll r sup f o order hd hm) hle
+    (f : Nat) (o : JStr) (h : AList.lookup o r = none) :
+    mapMemberFail sel r sup (f + 1) o key =
+      match AList.lookup o sup with
+      | none => some none
+      | some ss => firstSomeM (fun s => mapMemberFail sel r sup f s key) ss := by
+  rw [mapMemberFail, declares_unmapped sel r key o h]
+  rfl
 
 /-- the owner declares the member itself: its own answer, whatever the super types say (shadowing) -/
 theorem member_resolution_own (sel : BClass → AList MemberKey MemberKey) (r : BTable) (sup : Supers) (key v : MemberKey)
     (f : Nat) (o : JStr) (h : declares sel r key o = some v) : mapMemberFail sel r sup (f + 1) o key = some (some v) := by
-  unfold declares at h
-  rw [mapMemberFail]
-  cases hl : AList.lookup o r with
-  | none => rw [hl] at h; simp at h
-  | some cls => rw [hl] at h; simp only at h ⊢; rw [h]
+  rw [mapMemberFail, h]
 
 /-- declared nowhere along the search order: no answer (the caller falls back, `fallback_spec`) -/
 theorem member_resolution_nowhere (sel : BClass → AList MemberKey MemberKey) (r : BTable) (sup : Supers) (key : MemberKey)
-    {f f' : Nat} {o : JStr} {order : List JStr} (hd : dfs r sup f o = some order) (hle : f ≤ f')
+    {f f' : Nat} {o : JStr} {order : List JStr} (hd : dfs sup f o = some order) (hle : f ≤ f')
     (h : ∀ c ∈ order, declares sel r key c = none) : mapMemberFail sel r sup f' o key = some none := by
   rw [member_resolution sel r sup key hd hle]
   congr 1
@@ -335,38 +348,41 @@ def mU : Mappings := { ns := [jstr "official", jstr "named"], doc := none, class
 /-- `C extends P` -/
 def supU : Supers := [(jstr "C", [jstr "P"])]
 
-/-- `P` declares `f:I ↦ g`, `C` (not in the mappings) extends `P`. The pre-order from `C` is `[C, P]` and its first
-declaration of `f:I` is `g:I`, but `map_field_fail` answers "no mapping" and `map_field` leaves `C.f` unrenamed (while
-`P.f` becomes `g`): a class without a mapping hides what its super types declare. -/
-theorem member_resolution_unmapped_witness :
-    dfsAll supU 5 (jstr "C") = some [jstr "C", jstr "P"] ∧
-    (remapperB mU 0 1).bind (fun r => allMapped r [jstr "C", jstr "P"]) = some false ∧
+/-- **Regression** (the former `member_resolution_unmapped_witness`, defect fixed in `c873813`): `P` declares `f:I ↦ g`,
+`C` (not in the mappings) extends `P`. The pre-order from `C` is `[C, P]`, its first declaration of `f:I` is `g:I`, and
+that is now the answer for `C.f` (it used to be "no mapping", leaving `C.f` unrenamed while `P.f` became `g`). -/
+theorem member_resolution_unmapped_regression :
+    dfs supU (defaultFuel supU) (jstr "C") = some [jstr "C", jstr "P"] ∧
+    (remapperB mU 0 1).bind (fun r => AList.lookup (jstr "C") r) = none ∧
     (remapperB mU 0 1).bind (fun r => [jstr "C", jstr "P"].findSome? (declares BClass.fields r (jstr "f", jstr "I"))) =
       some (jstr "g", jstr "I") ∧
-    (remapperB mU 0 1).bind (fun r => mapMemberFail BClass.fields r supU 5 (jstr "C") (jstr "f", jstr "I")) = some none ∧
-    (remapperB mU 0 1).bind (fun r => mapMember BClass.fields r supU 5 (jstr "C") (jstr "f", jstr "I")) =
-      some (some (jstr "f", jstr "I")) ∧
-    (remapperB mU 0 1).bind (fun r => mapMember BClass.fields r supU 5 (jstr "P") (jstr "f", jstr "I")) =
+    (remapperB mU 0 1).bind (fun r => mapMemberFail BClass.fields r supU (defaultFuel supU) (jstr "C") (jstr "f", jstr "I")) =
+      some (some (jstr "g", jstr "I")) ∧
+    (remapperB mU 0 1).bind (fun r => mapMember BClass.fields r supU (defaultFuel supU) (jstr "C") (jstr "f", jstr "I")) =
+      some (some (jstr "g", jstr "I")) ∧
+    (remapperB mU 0 1).bind (fun r => mapMember BClass.fields r supU (defaultFuel supU) (jstr "P") (jstr "f", jstr "I")) =
       some (some (jstr "g", jstr "I")) := by
   decide
 
-/-- a diamond in which every class has a mapping: `D extends B, C`; `B extends A`; `C extends A`; `A` and `C` declare
-`f:I` (to different names). Pre-order `[D, B, A, C, A]`; the first declaration is `A`'s although `C` is a direct super
-type — depth first, in declaration order. The hypotheses of `member_resolution_nearest_partial` hold. -/
+/-- a diamond with a class that has no mapping in the middle: `D extends B, C`; `B extends A`; `C extends A`; `A` and `C`
+declare `f:I` (to different names), `B` is not in the mappings. Pre-order `[D, B, A, C, A]`; the first declaration is
+`A`'s, found through `B`, although `C` is a direct super type — depth first, in declaration order. -/
 def mD : Mappings :=
   { ns := [jstr "official", jstr "named"], doc := none,
-    classes := [clsU "A" "A1" [fldU], clsU "B" "B1" [], clsU "D" "D1" [],
+    classes := [clsU "A" "A1" [fldU], clsU "D" "D1" [],
       clsU "C" "C1" [((jstr "f", jstr "I"), { desc := jstr "I", names := [some (jstr "f"), some (jstr "h")], doc := none })]] }
 
 def supD : Supers := [(jstr "D", [jstr "B", jstr "C"]), (jstr "B", [jstr "A"]), (jstr "C", [jstr "A"])]
 
 example :
-    dfsAll supD (allFuel supD) (jstr "D") = some [jstr "D", jstr "B", jstr "A", jstr "C", jstr "A"] ∧
-    (remapperB mD 0 1).bind (fun r => allMapped r [jstr "D", jstr "B", jstr "A", jstr "C", jstr "A"]) = some true ∧
-    (remapperB mD 0 1).bind (fun r => mapMemberFail BClass.fields r supD (defaultFuel r) (jstr "D") (jstr "f", jstr "I")) =
+    dfs supD (defaultFuel supD) (jstr "D") = some [jstr "D", jstr "B", jstr "A", jstr "C", jstr "A"] ∧
+    (remapperB mD 0 1).bind (fun r => AList.lookup (jstr "B") r) = none ∧
+    (remapperB mD 0 1).bind (fun r => mapMemberFail BClass.fields r supD (defaultFuel supD) (jstr "D") (jstr "f", jstr "I")) =
       some (some (jstr "g", jstr "I")) ∧
-    (remapperB mD 0 1).bind (fun r => mapMemberFail BClass.fields r supD (defaultFuel r) (jstr "C") (jstr "f", jstr "I")) =
-      some (some (jstr "h", jstr "I")) := by
+    (remapperB mD 0 1).bind (fun r => mapMemberFail BClass.fields r supD (defaultFuel supD) (jstr "C") (jstr "f", jstr "I")) =
+      some (some (jstr "h", jstr "I")) ∧
+    (remapperB mD 0 1).bind (fun r => mapMemberFail BClass.fields r supD (defaultFuel supD) (jstr "B") (jstr "x", jstr "I")) =
+      some none := by
   decide
 
 /-! ## fallbacks -/
@@ -577,15 +593,12 @@ theorem roundtrip_member_query (k : Kind) {m : Mappings} {x y : Nat} {rf rb : BT
     mapMemberFail k.sel rf sup (f + 1) o key = some (some key') ∧
     mapMemberFail k.sel rb sup' (f' + 1) (mapClass (classTable rf) o) key' = some (some key) := by
   have hd := roundtrip_member k hf hb ho hk hrow hrows hc hm
+  have hmc : mapClass (classTable rf) o = cls.name := by
+    simp [mapClass, mapClassFail, lookup_classTable, ho]
   constructor
-  · rw [mapMemberFail, ho]; simp only [hk]
-  · have hmc : mapClass (classTable rf) o = cls.name := by
-      simp [mapClass, mapClassFail, lookup_classTable, ho]
-    rw [hmc, mapMemberFail]
-    unfold declares at hd
-    cases hl : AList.lookup cls.name rb with
-    | none => rw [hl] at hd; simp at hd
-    | some c' => rw [hl] at hd; simp only at hd ⊢; rw [hd]
+  · exact member_resolution_own k.sel rf sup key key' f o (by simp [declares, ho, hk])
+  · rw [hmc]
+    exact member_resolution_own k.sel rb sup' key' key f' cls.name hd
 
 /-- two fields of one class with the same target name and descriptor: `B.f ↦ Z.h ↦ B.g` -/
 theorem roundtrip_member_witness :
@@ -595,16 +608,16 @@ theorem roundtrip_member_witness :
       some (jstr "g", jstr "I") := by
   decide
 
-/-! ## the round-trip hypotheses are satisfiable (set `mD`: four classes with distinct targets, `A` and `C` declare `f:I`) -/
+/-! ## the round-trip hypotheses are satisfiable (set `mD`: three classes with distinct targets, `A` and `C` declare `f:I`) -/
 
 /-- `roundtrip_desc`: a method descriptor with an array of a mapped class, an unmapped class and a mapped return type -/
 example :
-    parse? (jstr "([LA;LX;)LB;") =
-      some (.method { params := [.arr (.obj (jstr "A")), .obj (jstr "X")], ret := some (.obj (jstr "B")) }) ∧
-    (∀ c ∈ [jstr "A", jstr "X", jstr "B"],
+    parse? (jstr "([LA;LX;)LD;") =
+      some (.method { params := [.arr (.obj (jstr "A")), .obj (jstr "X")], ret := some (.obj (jstr "D")) }) ∧
+    (∀ c ∈ [jstr "A", jstr "X", jstr "D"],
       injOn (classPairs mD 0 1) (mapClass (aTable mD 0 1) c) c = true ∧ validName (mapClass (aTable mD 0 1) c)) ∧
-    mapDescWith (aTable mD 0 1) (jstr "([LA;LX;)LB;") = some (jstr "([LA1;LX;)LB1;") ∧
-    mapDescWith (aTable mD 1 0) (jstr "([LA1;LX;)LB1;") = some (jstr "([LA;LX;)LB;") := by
+    mapDescWith (aTable mD 0 1) (jstr "([LA;LX;)LD;") = some (jstr "([LA1;LX;)LD1;") ∧
+    mapDescWith (aTable mD 1 0) (jstr "([LA1;LX;)LD1;") = some (jstr "([LA;LX;)LD;") := by
   decide
 
 /-- `roundtrip_member`: `A.f:I ↦ A1.g:I ↦ A.f:I` -/
